@@ -37,9 +37,22 @@ func main() {
 		cur = new(edwards25519.Point).Add(cur, e)
 		own[i] = cur
 	}
+	// shared read-only field elements in a non-canonical representation
+	sx, sy, _, _ := new(edwards25519.Point).Add(shared, e).ExtendedCoordinates()
+	sharedElem := new(field.Element).Add(sx, sx)
+	sharedElem2 := new(field.Element).Subtract(sy, sx)
 	work := func(i int) []byte {
 		var out []byte
 		mine := own[i%len(own)]
+		// read-only use of shared values by every goroutine
+		out = append(out, byte(sharedElem.Equal(sharedElem2)), byte(sharedElem.IsNegative()), byte(shared.Equal(own[0])))
+		out = append(out, sharedElem.Bytes()...)
+		out = append(out, new(field.Element).Multiply(sharedElem, sharedElem2).Bytes()...)
+		out = append(out, new(field.Element).Add(sharedElem2, sharedElem).Bytes()...)
+		out = append(out, shared.Bytes()...)
+		out = append(out, shared.BytesMontgomery()...)
+		out = append(out, k[0].Bytes()...)
+		out = append(out, byte(k[0].Equal(k[1])))
 		out = append(out, new(edwards25519.Point).VarTimeDoubleScalarBaseMult(k[i%3], mine, k[(i+1)%3]).Bytes()...)
 		out = append(out, new(edwards25519.Point).ScalarMult(k[i%3], mine).Bytes()...)
 		out = append(out, new(edwards25519.Point).VarTimeMultiScalarMult([]*edwards25519.Scalar{k[0], k[1]}, []*edwards25519.Point{mine, shared}).Bytes()...)
@@ -95,6 +108,43 @@ func main() {
 	for i := 0; i < n; i++ {
 		if !bytes.Equal(res[i], work(i)) {
 			fmt.Printf("MISMATCH goroutine %d\n", i)
+			os.Exit(3)
+		}
+	}
+	// phase 2: one multi-scalar call with many terms, then concurrent small
+	// ones (pooled scratch that is mishandled on the oversized path)
+	var bs []*edwards25519.Scalar
+	var bp []*edwards25519.Point
+	for i := 0; i < 13; i++ {
+		bs = append(bs, k[i%3])
+		bp = append(bp, own[i%len(own)])
+	}
+	new(edwards25519.Point).VarTimeMultiScalarMult(bs, bp)
+	new(edwards25519.Point).MultiScalarMult(bs, bp)
+	small := func(i int) []byte {
+		a, b := own[i%len(own)], own[(i+5)%len(own)]
+		o := new(edwards25519.Point).VarTimeMultiScalarMult([]*edwards25519.Scalar{k[i%3], k[(i+1)%3]}, []*edwards25519.Point{a, b}).Bytes()
+		o = append(o, new(edwards25519.Point).MultiScalarMult([]*edwards25519.Scalar{k[(i+2)%3], k[i%3]}, []*edwards25519.Point{b, a}).Bytes()...)
+		o = append(o, new(edwards25519.Point).VarTimeDoubleScalarBaseMult(k[i%3], a, k[(i+1)%3]).Bytes()...)
+		return o
+	}
+	start2 := make(chan struct{})
+	res2 := make([][]byte, n)
+	for i := 0; i < n; i++ {
+		wg.Add(1)
+		go func(i int) {
+			defer wg.Done()
+			<-start2
+			for r := 0; r < 20; r++ {
+				res2[i] = small(i)
+			}
+		}(i)
+	}
+	close(start2)
+	wg.Wait()
+	for i := 0; i < n; i++ {
+		if !bytes.Equal(res2[i], small(i)) {
+			fmt.Printf("MISMATCH phase 2 goroutine %d\n", i)
 			os.Exit(3)
 		}
 	}
